@@ -197,3 +197,29 @@ def _interpret_node(t: 'val', variables: 'set', model: 'Model') -> 'tuple':
     invariant(0, lambda: var == t[0] and edges == t[1])
     invariant(0, lambda: len(epidata) == 0 or pair_with_list(epidata[-1]))
     invariant(0, lambda: implies(has_concept, len(epidata) >= 1))
+
+
+# ---- layout diagnostics (C14) ---------------------------------------------------------------------
+
+@spec
+def markers_of(g_epidata: 'dict', triple: 'val') -> 'val':
+    """the marker list of a triple; a triple without an entry has none"""
+    return dict_get(g_epidata, triple, [])
+
+
+@spec
+def epis_wf(epis: 'val') -> 'bool':
+    return is_list(epis) and forall_idx(epis, lambda i, e: is_inst(e, 'Epidatum'))
+
+
+@contract('penman.layout:get_pushed_variable')
+def get_pushed_variable(g: 'Graph', triple: 'val') -> 'val':
+    requires(epis_wf(markers_of(g.epidata, triple)))
+    # the variable of the first Push marker on the triple, None without one (never raises: a triple
+    # without a marker entry answers None)
+    ensures(implies(forall_idx(markers_of(g.epidata, triple), lambda i, e: not is_inst(e, 'Push')), result is None))
+    ensures(implies(not forall_idx(markers_of(g.epidata, triple), lambda i, e: not is_inst(e, 'Push')),
+                    exists_idx(markers_of(g.epidata, triple),
+                               lambda j, e: is_inst(e, 'Push') and result == e.variable
+                               and forall_idx(markers_of(g.epidata, triple), lambda k, f: k >= j or not is_inst(f, 'Push')))))
+    invariant(0, lambda: forall_idx(markers_of(g.epidata, triple), lambda k, f: k >= _i or not is_inst(f, 'Push')))
